@@ -304,6 +304,8 @@ class _PyModule(PyDefinedObject, AbstractModule):
     def __init__(self, pycore, ast_node, resource):
         self.resource = resource
         self.concluded_data = []
+        # names that exist only through ``global`` declarations in functions
+        self.declared_globals = {}
         AbstractModule.__init__(self)
         PyDefinedObject.__init__(self, pycore, ast_node, None)
 
